@@ -11,7 +11,8 @@
                                          swap / findAndMoveStagedFileIntoPlace
      pkg/synchronization/core/scan.go    Scan: root open, directory recursion
      pkg/synchronization/endpoint/local/staging/store  (paths only)
-     pkg/synchronization/endpoint/local  stageFromRoot
+     pkg/synchronization/endpoint/local  stageFromRoot, Supply
+     pkg/synchronization/rsync/transmit.go  Transmit (the supply side)
 
    An operation is a PROGRAM: a tree whose nodes are the path-taking
    primitives it issues (one system call each) and whose branches are indexed
@@ -456,6 +457,15 @@ Fixpoint opener_open_files (o : opener) (paths : list string) : prog (list bool)
                    bind (opener_open_files o' rest)
                         (fun l => Ret ((match r with OkR _ => true | ErrR => false end) :: l)))
   end.
+
+(* rsync.Transmit (pkg/synchronization/rsync/transmit.go), the supply side:
+   one Opener for the whole request; for each requested path exactly one
+   Opener.OpenFile; if it fails an error transmission is sent and NOTHING else
+   is opened for that path; if it succeeds the file is read through its
+   descriptor (deltification) and closed. The result says, per path, whether
+   data was supplied. (Endpoint.Supply is Transmit on the endpoint's root.) *)
+Definition transmit (paths : list string) : prog (list bool) :=
+  opener_open_files new_opener paths.
 
 (* ------------------------------------------------------------ staging store *)
 
